@@ -622,7 +622,13 @@ fn gen_value(r: &mut Rng, big: bool) -> String {
         4 => "binary: 3".into(),
         5 => "a: b".into(),
         6 => "\0nul\0".into(),
-        7 => "\rcr\r".into(),
+        // control characters next to the line end; bytes that differ from LF in one bit (0x0B, 0x0E, 0x1A,
+        // 0x2A, 0x4A, 0x8A inside U+010A …): whatever scans for the delimiter must find exactly LF, at
+        // every alignment of the value
+        7 => {
+            let tail = *r.pick(&["\rcr\r", "\x0b", "\x0b\x0b", "\x0c", "\x0e", "\x1a", "*", "J", "\u{10a}", "\x7f", "\t", "\x0b\u{10a}\x0b"]);
+            format!("{}{}", "abcdefghijklmnop".get(..r.below(17)).unwrap(), tail)
+        }
         8 => format!("{}", r.next()),
         9 if big => {
             let n = *r.pick(&[100usize, 1000, 4090, 4096, 5000, 9000]);
@@ -986,6 +992,9 @@ pub fn gen(cfg: &Cfg) -> Vec<String> {
             }
         }
         "C03" => {
+            // pipelined responses around the blocking buffer's sizes (a grown buffer, a backlog of exactly
+            // 4095 / 4096 / 4097 … bytes of the next response)
+            big_pair_ops(&mut ops, cfg.seed);
             // a huge binary response directly followed by another response, delivered in large reads
             for (k, size) in [70_000usize, 150_000, 300_000].iter().enumerate() {
                 if k > 0 && !cfg.thorough && cfg.seed % 2 == 1 && k == 1 {
